@@ -158,6 +158,10 @@ class Evaluator(object):
                     self.remove_first(s2, v, e.args)
                     yield UNK, s2
                 return
+            if nm == 'getattr' and len(e.args) == 2 and not e.keywords:
+                for base, s1 in self.ev(e.args[0], st):
+                    yield (('obj', base[1] + '.<attr>') if base[0] == 'obj' else UNK), s1
+                return
             if nm == 'int' and len(e.args) == 1:
                 for r in self.ev(e.args[0], st):
                     yield r
@@ -389,6 +393,20 @@ class Evaluator(object):
             return out
         if isinstance(n, (ast.For, ast.While)):
             h = self.havoc(n, s)
+            # a name that the loop (and its else) only ever binds to holders of series is a holder of series afterwards
+            assigns = {}
+            for x in ast.walk(n):
+                if isinstance(x, ast.Assign) and len(x.targets) == 1 and isinstance(x.targets[0], ast.Name):
+                    assigns.setdefault(x.targets[0].id, []).append(x)
+            for nm_, lst in assigns.items():
+                before = s.env.get(nm_, UNK)
+                in_else = any(any(a_ is y for y in ast.walk(ast.Module(body=list(n.orelse), type_ignores=[]))) for a_ in lst)
+                kinds = set()
+                for a_ in lst:
+                    for v_, _s in self.ev(a_.value, h):
+                        kinds.add(v_[0])
+                if kinds == {'obj'} and (before[0] == 'obj' or in_else):
+                    h.env[nm_] = ('obj', 'one of several holders')
             inside = self.block(n.body, [h.copy()])      # collects the returns inside the loop
             after = [h] + [self.havoc(n, x) for x in inside[:1]]
             return self.block(n.orelse, after[:1]) if n.orelse else after[:1]
